@@ -44,6 +44,26 @@ func armsOf(p *Path) []armRun {
 	return out
 }
 
+// untimedSelects: every select on the path can only complete through the given channel (all its other arms are on
+// the nil channel, which is never ready) - it behaves like the plain channel operation.
+func untimedSelects(p *Path, ch *Term) bool {
+	for i := range p.Events {
+		e := &p.Events[i]
+		if e.Kind != "select" {
+			continue
+		}
+		if e.Val.Sym == "nonblocking" {
+			return false
+		}
+		for _, a := range e.Val.Args {
+			if a.Key() != ch.Key() && !a.IsNil() {
+				return false
+			}
+		}
+	}
+	return true
+}
+
 // recvValueTerms for arm k of a select: (value, ok)
 func selectRecvTerms(a armRun) (val, ok *Term) {
 	// value index: 2 + number of receive states before k
@@ -84,7 +104,7 @@ func runC19(c *Ctx) {
 		ok, why := true, ""
 		sawR, sawN := false, false
 		for _, p := range ps {
-			if s.timeoutArg >= 0 && len(armsOf(p)) == 0 && p.End == EndReturn {
+			if s.timeoutArg >= 0 && (len(armsOf(p)) == 0 || untimedSelects(p, ch)) && p.End == EndReturn {
 				// an un-timed transfer is allowed exactly for timeout <= 0
 				tp := ToPoly(paramOf(fi, s.timeoutArg))
 				exact := false
@@ -383,7 +403,7 @@ func c19Senders(c *Ctx, rule string, onlyTimeout bool) {
 		ok, why := true, ""
 		sawT, sawF := false, false
 		for _, p := range ps {
-			if s.timeoutArg >= 0 && len(armsOf(p)) == 0 && p.End == EndReturn {
+			if s.timeoutArg >= 0 && (len(armsOf(p)) == 0 || untimedSelects(p, ch)) && p.End == EndReturn {
 				// an un-timed transfer is allowed exactly for timeout <= 0
 				tp := ToPoly(paramOf(fi, s.timeoutArg))
 				exact := false
@@ -468,7 +488,7 @@ func c19Senders(c *Ctx, rule string, onlyTimeout bool) {
 			for _, p := range ps {
 				for _, cd := range p.Conds {
 					rl := cd.Rel()
-					if rl.B != nil && isParam(rl.A, s.timeoutArg) && rl.B.IsConst("0") && rl.Op == "<=" && len(armsOf(p)) == 0 {
+					if rl.B != nil && isParam(rl.A, s.timeoutArg) && rl.B.IsConst("0") && rl.Op == "<=" && (len(armsOf(p)) == 0 || untimedSelects(p, ch)) {
 						found = true
 					}
 				}
